@@ -119,6 +119,15 @@ def subject(case):
     return res
 
 
+def union_strict_error(strict, first):
+    """identification of F-C04a: same path, the path is the union-typed element t:u of the harness schema, the strict
+    error is the union's XMLSchemaDecodeError 'invalid value ...', the lax error is another (member type) error"""
+    path_s, cls_s, reason_s = strict
+    path_l, cls_l, reason_l = first
+    return (path_s == path_l and re.search(r'[:}]u(\[\d+\])?$', path_s or '') is not None and cls_s == 'XMLSchemaDecodeError'
+            and reason_s.startswith('invalid value') and cls_l != 'XMLSchemaDecodeError')
+
+
 def check_docs(ctx, cases):
     impl = common.pool_map(subject, cases)
     for c, o in zip(cases, impl):
@@ -147,6 +156,14 @@ def check_docs(ctx, cases):
             e = r['errors']
             want_valid = not e
             first = e[0] if e else None
+            # F-C04a: for a value every member type of a union rejects, strict raises the union's own decode error
+            # ("invalid value ...") while lax collects the first member's facet / pattern error (same path)
+            strict_errs = [x for x in (r['validate'], r['decode_strict'][1] if r['decode_strict'][0] == 'raise' else None,
+                                       r['to_dict'][1] if r['to_dict'][0] == 'raise' else None, r['pkg_validate']) if x]
+            if first and strict_errs and all(x == strict_errs[0] for x in strict_errs) and strict_errs[0] != first \
+                    and union_strict_error(strict_errs[0], first):
+                ctx.known_finding('F-C04a')
+                first = strict_errs[0]
             chk = [('is_valid', r['is_valid'] == want_valid), ('validate', r['validate'] == first),
                    ('decode_strict', (r['decode_strict'][0] == 'ok') == want_valid and
                     (want_valid or r['decode_strict'][1] == first)),
@@ -296,7 +313,7 @@ def gen(ctx):
         k = rng.choice([0, 0, 1, 1, 2, 3])
         for _ in range(k):
             d = c11.mutate_doc(rng, d)
-        cases.append({'doc': d, 'version': rng.choice(['10', '11'])})
+        cases.append({'doc': d, 'version': rng.choice(['10', '11', '11i'])})
     return cases
 
 
